@@ -247,8 +247,8 @@ func init() {
 		b.order = append(b.order, n)
 		go b.reader(c)
 		go func() {
+			// like the bundled listeners: the error is only logged, closing the connection is the broker's job
 			_ = b.s.EstablishConnection("t", c2)
-			c2.Close()
 			close(c.done)
 		}()
 		return b.feedRaw(c, unhx(a[1]))
